@@ -71,6 +71,16 @@ const (
 	stickyCookieServicesAnnotation        = "nginx.com/sticky-cookie-services"
 	pathRegexAnnotation                   = "nginx.org/path-regex"
 	useClusterIPAnnotation                = "nginx.org/use-cluster-ip"
+	limitReqRateAnnotation                = "nginx.org/limit-req-rate"
+	limitReqKeyAnnotation                 = "nginx.org/limit-req-key"
+	limitReqZoneSizeAnnotation            = "nginx.org/limit-req-zone-size"
+	limitReqDelayAnnotation               = "nginx.org/limit-req-delay"
+	limitReqNoDelayAnnotation             = "nginx.org/limit-req-no-delay"
+	limitReqBurstAnnotation               = "nginx.org/limit-req-burst"
+	limitReqDryRunAnnotation              = "nginx.org/limit-req-dry-run"
+	limitReqLogLevelAnnotation            = "nginx.org/limit-req-log-level"
+	limitReqRejectCodeAnnotation          = "nginx.org/limit-req-reject-code"
+	limitReqScaleAnnotation               = "nginx.org/limit-req-scale"
 )
 
 const (
@@ -340,9 +350,76 @@ var (
 		useClusterIPAnnotation: {
 			validateBoolAnnotation,
 		},
+		limitReqRateAnnotation: {
+			validateRequiredAnnotation,
+			validateLimitReqRateAnnotation,
+		},
+		limitReqKeyAnnotation: {
+			validateRequiredAnnotation,
+			validateLimitReqKeyAnnotation,
+		},
+		limitReqZoneSizeAnnotation: {
+			validateRequiredAnnotation,
+			validateSizeAnnotation,
+		},
+		limitReqDelayAnnotation: {
+			validateRequiredAnnotation,
+			validateIntAnnotation,
+		},
+		limitReqNoDelayAnnotation: {
+			validateRequiredAnnotation,
+			validateBoolAnnotation,
+		},
+		limitReqBurstAnnotation: {
+			validateRequiredAnnotation,
+			validateIntAnnotation,
+		},
+		limitReqDryRunAnnotation: {
+			validateRequiredAnnotation,
+			validateBoolAnnotation,
+		},
+		limitReqLogLevelAnnotation: {
+			validateRequiredAnnotation,
+			validateLimitReqLogLevelAnnotation,
+		},
+		limitReqRejectCodeAnnotation: {
+			validateRequiredAnnotation,
+			validateIntAnnotation,
+		},
+		limitReqScaleAnnotation: {
+			validateRequiredAnnotation,
+			validateBoolAnnotation,
+		},
 	}
 	annotationNames = sortedAnnotationNames(annotationValidations)
 )
+
+// limitReqKeyRegexp is the language of a limit_req_zone key that is rendered as one bare word: NGINX variables
+// ($name or ${name}) and text without white space or bytes that are structural for the NGINX configuration lexer.
+var limitReqKeyRegexp = regexp.MustCompile(`^(\$\{\w+\}|\$\w+|[^\s;{}\\"'#$])+$`)
+
+func validateLimitReqKeyAnnotation(context *annotationValidationContext) field.ErrorList {
+	if !limitReqKeyRegexp.MatchString(context.value) {
+		return field.ErrorList{field.Invalid(context.fieldPath, context.value, "must be a single word without white space, ';', '{', '}', '#', quotes or '\\', for example ${binary_remote_addr}")}
+	}
+	return nil
+}
+
+func validateLimitReqRateAnnotation(context *annotationValidationContext) field.ErrorList {
+	if _, err := configs.ParseRequestRate(context.value); err != nil {
+		return field.ErrorList{field.Invalid(context.fieldPath, context.value, "must be a rate, for example 10r/s or 300r/m")}
+	}
+	return nil
+}
+
+func validateLimitReqLogLevelAnnotation(context *annotationValidationContext) field.ErrorList {
+	switch context.value {
+	case "info", "notice", "warn", "error":
+		return nil
+	default:
+		return field.ErrorList{field.Invalid(context.fieldPath, context.value, "allowed values: 'info', 'notice', 'warn' or 'error'")}
+	}
+}
 
 func validatePathRegex(context *annotationValidationContext) field.ErrorList {
 	switch context.value {
